@@ -12,7 +12,7 @@
                val = z<HexZ> | n<HexN> | b0 | b1 | x<hex> | M... | E <key> <val>
    Ops:
      schema <id> <name> <schema tokens>          | ok            (stored; later ops refer to <id>)
-     enc <id> <tid> <f|s> <value>                | ok <xbytes> <size hex>  or  utf8
+     enc <id> <tid> <f|s> <value>                | ok <xbytes> <size hex> <v1|v0: msg_valid>  or  utf8
      dec <id> <tid> <f|s> <limit hex> <xbytes>   | ok <value>  or  e<code> (1 parse 2 depth 3 utf8)
    Other families may call [Fam_msg.schema_of_id], [parse_value], [value_tokens]. *)
 open Util
@@ -123,7 +123,9 @@ let handle op args =
     let s = schema_of_id id and tid = nat_cached (int_of_string tid) in
     let (v, _) = parse_value toks in
     if not (MsgEnc.msg_enc_utf8_ok (mode = "s") s tid v) then ["utf8"]
-    else ["ok"; hex_of_bytes (MsgEnc.msg_encode s tid v); hex_of_n (MsgEnc.msg_size_body s tid v)]
+    else ["ok"; hex_of_bytes (MsgEnc.msg_encode s tid v); hex_of_n (MsgEnc.msg_size_body s tid v);
+          (* the canonical-value predicate of the C03 theorem holds of what the implementation holds *)
+          if MsgValid.msg_valid (mode = "s") s (nat_cached 10000) tid v then "v1" else "v0"]
   | "dec", [id; tid; mode; limit; b] ->
     let s = schema_of_id id and tid = nat_cached (int_of_string tid) in
     (match MsgDec.msg_decode (mode = "s") s (nat_cached (int_of_n (n_of_hex limit))) tid (bytes_of_hex b) with
